@@ -232,6 +232,18 @@ func flushLocked() {
 	}
 }
 
+// FailFast ends the test process at the first oracle verdict when the driver asked for it
+// (VERIF_FAILFAST=1): real-time units whose failing cases take minutes must not be re-run by
+// the property library's shrinker. The case that failed is in the statistics file.
+func FailFast(sig, detail string) {
+	if os.Getenv("VERIF_FAILFAST") != "1" {
+		return
+	}
+	fmt.Printf("VERIF-FAIL sig=%s :: %s\n", sig, detail)
+	Flush()
+	os.Exit(1)
+}
+
 // Main is a TestMain body: run, flush, exit.
 func Main(run func() int) {
 	code := run()
